@@ -209,3 +209,8 @@ Definition ext_load_meta (meta : sheet) : res schema := ext_load NoLoader (Some 
 (* a schema written by hand as {type: object, properties: {name: {type: string}, ...}} *)
 Definition hand_schema (names : list key) : schema :=
   dict_of (map (fun k => mk_entry k None) names).
+
+(* ... and one whose properties each carry an explicit position keyword,
+   {name: {type: string, position: p}, ...}, in any order and for any subset of the columns *)
+Definition hand_schema_at (decl : list (key * nat)) : schema :=
+  dict_of (map (fun kp => mk_entry (fst kp) (Some (snd kp))) decl).
